@@ -32,12 +32,14 @@ def build(sc):
                         data=np.array([p['id'] for p in ps]))
         pas.append(pa)
     c = sc['cfg']
-    lo, hi = o + u * c['lo'], o + u * c['hi']
+    lo = [o + u * v for v in c['lo']]
+    hi = [o + u * v for v in c['hi']]
     props = None
     if not c['copyq']:
         props = ['x', 'y', 'z', 'h', 'u', 'v', 'w', 'ident', 'tag', 'm', 'rho']
     dm = DomainManager(
-        xmin=lo, xmax=hi, ymin=lo, ymax=hi, zmin=lo, zmax=hi,
+        xmin=lo[0], xmax=hi[0], ymin=lo[1], ymax=hi[1], zmin=lo[2],
+        zmax=hi[2],
         periodic_in_x=c['per'][0], periodic_in_y=c['per'][1],
         periodic_in_z=c['per'][2], mirror_in_x=c['mir'][0],
         mirror_in_y=c['mir'][1], mirror_in_z=c['mir'][2],
